@@ -5,11 +5,18 @@ From ZV Require Import Str Dec Sanitize SanitizeSpec StrFacts DecFacts SanitizeP
 Open Scope N_scope.
 
 Definition seg_wf (g : str) : Prop := g <> [] /\ alnum g /\ has_leading_zero g = false.
-Definition id_wf (i : ident) : Prop := match i with IUInt _ => True | IStr s => seg_wf s end.
+(* what classify produces: a number below 2^64, or a well-formed segment that does NOT read as a u64 (so it stays text when re-parsed) *)
+Definition id_wf (i : ident) : Prop := match i with IUInt n => n < 18446744073709551616 | IStr s => seg_wf s /\ parse_u64 s = None end.
 Definition part_wf (o : option (list ident)) : Prop := match o with Some l => l <> [] /\ Forall id_wf l | None => True end.
 
+Lemma parse_u64_bound g n : parse_u64 g = Some n -> n < 18446744073709551616.
+Proof.
+  unfold parse_u64, parse_uint_bits. destruct (parse_dec _) as [m|]; [|discriminate].
+  destruct (m <? 2 ^ 64) eqn:E; [|discriminate]. intros H. inversion H; subst. apply N.ltb_lt in E. exact E.
+Qed.
+
 Lemma classify_wf g : seg_wf g -> id_wf (classify_u64 g).
-Proof. intros H. unfold classify_u64. destruct (parse_u64 g); cbn; auto. Qed.
+Proof. intros H. unfold classify_u64. destruct (parse_u64 g) as [n|] eqn:E; cbn; [apply (parse_u64_bound g n E)|split; [exact H|exact E]]. Qed.
 
 (* a dotted sanitiser output is a list of well-formed segments *)
 Lemma sanitized_segs lower y :
